@@ -126,6 +126,16 @@ class Trig:
         if is_num(X): return z3.RealVal(repr(math.sqrt(max(0.0, float(z3val_to_fraction(X))))))
         return s.ex.sqrt_log[k][1]
     def sqrt_arg(s, k, X): return X if is_num(X) else s.ex.sqrt_log[k][0]
+    def _calls(s, fn): return [(v, argt) for key, (v, argt) in s.ex.trig.items() if key[0] == fn]
+    def inv(s, fn, k, *X):
+        """result variable of the k-th distinct acos/asin/atan/atan2 call executed by the code (X: the specification's expression(s) for its argument(s),
+        linked separately through inv_arg); on numeric replay the libm value"""
+        if all(is_num(x) for x in X):
+            a = [float(z3val_to_fraction(x)) for x in X]
+            if fn in ('acos', 'asin'): a = [max(-1.0, min(1.0, a[0]))]
+            return z3.RealVal(repr(getattr(math, fn)(*a)))
+        return s._calls(fn)[k][0]
+    def inv_arg(s, fn, k, j, X): return X if is_num(X) else s._calls(fn)[k][1][j]
 def Rx(T, a):
     c, s = T.cos(a), T.sin(a); return [[1, 0, 0], [0, c, -s], [0, s, c]]
 def Ry(T, a):
@@ -148,16 +158,37 @@ def euler_product(T, order, angles):
 def mkex(unit, mode, unwind):
     ex = Exec(unit.module(), fmode='real' if mode == 'real' else 'fp', unwind=unwind)
     if mode == 'real':
-        realtrig.map_pi_literals(ex); ex.trig_domain = True
+        realtrig.map_pi_literals(ex); ex.trig_domain = True; ex.model_inputs_hook = realtrig.model_inputs_hook
     return ex
-def chk(S, unit, fn, spec, pre=None, setup=None, **kw):
-    """check_fn in real mode; spec(i, o, T) gets a Trig context bound to the executor that ran the code; setup(res, T) may instantiate lemmas"""
+def abstract_ites(t, tag='ite'):
+    """generalise: every maximal If-subterm of real sort (reached through arithmetic / comparisons / connectives) becomes a fresh real (sound for proving validity)"""
+    subs = {}
+    def go(x):
+        if z3.is_app(x) and x.decl().kind() == z3.Z3_OP_ITE and z3.is_real(x):
+            k = x.get_id()
+            if k not in subs: subs[k] = (x, z3.Real('%s!abs%d' % (tag, len(subs))))
+            return
+        for c in x.children(): go(c)
+    go(t)
+    return z3.substitute(t, *subs.values()) if subs else t
+def chk(S, unit, fn, spec, pre=None, setup=None, abstract_side=False, **kw):
+    """check_fn in real mode; spec(i, o, T) gets a Trig context bound to the executor that ran the code; setup(res, T) may instantiate lemmas.
+    abstract_side: the executor's side obligations (sqrt/division domains, traps) are discharged on a generalisation in which merged-path If-terms are fresh reals"""
     box = {}
     def xh(res):
         box['T'] = Trig(res.ex); box['res'] = res
         return list(setup(res, box['T']) or []) if setup else []
     kw.setdefault('mode', 'real'); kw.setdefault('timeout', S.cap(40, 120)); kw.setdefault('solver', 'nra')
-    return S.check_fn(unit, fn, lambda i, o: spec(i, o, box['T']), pre, extra_hyps=xh, ex=mkex, **kw)
+    if abstract_side: kw['side'] = False
+    res = S.check_fn(unit, fn, lambda i, o: spec(i, o, box['T']), pre, extra_hyps=xh, ex=mkex, **kw)
+    if abstract_side and res is not None:
+        p = pre(res.ins) if pre else []
+        hy = list(p if isinstance(p, (list, tuple)) else [p]) + res.axioms
+        name = kw.get('name') or '%s.%s' % (unit.name, fn)
+        for k, (kind, cond, d) in enumerate(res.obligations):
+            S.prove('%s.%s[%s]#%d' % (name, kind, d[:60], k), z3.Not(abstract_ites(cond)), hy, timeout=kw['timeout'], solver=kw['solver'], kind=kind, functions=['w_' + fn],
+                    bounds='generalised over merged-path If-terms')
+    return res
 
 # ------------------------------------------------------------------------------------------------ jobs
 def job_rotate(lay, t):
@@ -233,7 +264,7 @@ def job_twovec(lay, t):
                 g += [(br + '.sqrt1.arg', RGoal('eq', T.sqrt_arg(1, P['X1']), norm2(raw), P[br])), (br + '.len>0', RGoal('gt', P['L'], ZERO, P[br]))]
                 g += [('%s.q*len==raw[%d]' % (br, k), RGoal('eq', q[k] * P['L'], raw[k], P[br])) for k in range(4)]
             return g
-        chk(S, Un, 'uv_' + t, spec, nz, bounds='all non-zero u, v; chain: q = raw/|raw| (here) + lemmas.* => q maps u/|u| to v/|v| (to -u/|u| on the opposite-vectors branch)')
+        chk(S, Un, 'uv_' + t, spec, nz, abstract_side=True, bounds='all non-zero u, v; chain: q = raw/|raw| (here) + lemmas.* => q maps u/|u| to v/|v| (to -u/|u| on the opposite-vectors branch)')
         # gtx rotation(orig, dest), documented for normalised arguments
         un = lambda i: [unit(i[0]), unit(i[1])]
         eps = EPS[t]
@@ -246,7 +277,7 @@ def job_twovec(lay, t):
             g += [('opp.axis-orthogonal', RGoal('eq', dot(q[1:], u), ZERO, opp)), ('opp.axis-unit', RGoal('eq', norm2(q[1:]), ONE, opp)),
                   ('opp.w<=1e-7', RGoal('le', q[0], fr(1e-7), opp)), ('opp.w>=-1e-7', RGoal('ge', q[0], fr(-1e-7), opp))]
             return g
-        chk(S, Un, 'rot_' + t, specr, un, bounds='all unit u, v; chain: q = (s/2, u x v / s), s = sqrt(2(1+u.v)) (here) + lemmas.* => q maps u to v; cos>=1-eps: identity; cos<-1+eps: half turn about a unit axis orthogonal to u')
+        chk(S, Un, 'rot_' + t, specr, un, abstract_side=True, bounds='all unit u, v; chain: q = (s/2, u x v / s), s = sqrt(2(1+u.v)) (here) + lemmas.* => q maps u to v; cos>=1-eps: identity; cos<-1+eps: half turn about a unit axis orthogonal to u')
     return run
 
 def job_lemmas(S):
